@@ -853,7 +853,9 @@ func (g *gen) stmt(d int) string {
 		return "if x := " + hdr(g.val(t, d)) + "; x == " + hdr(g.val(t, d-1)) + " {\n\t} else if x != " + hdr(g.val(t, 0)) + " {\n\t\t_ = x\n\t} else {\n\t}"
 	case 22:
 		// pointer dereference after / before a nil check (SA5011 material)
-		t := g.namedType(func(t *Ty) bool { return t.kind() == KStruct && !t.Generic && len(t.u().Fields) > 0 && !t.u().Fields[0].Embedded && t.u().Fields[0].Name != "_" }, 0)
+		t := g.namedType(func(t *Ty) bool {
+			return t.kind() == KStruct && !t.Generic && len(t.u().Fields) > 0 && !t.u().Fields[0].Embedded && t.u().Fields[0].Name != "_"
+		}, 0)
 		if t.kind() != KStruct || len(t.u().Fields) == 0 || t.u().Fields[0].Embedded || t.u().Fields[0].Name == "_" {
 			return g.localVar(d)
 		}
